@@ -169,7 +169,8 @@ theorem drivers_second_session_silent (ns : Bytes) (hns : ns.length = 32) (now :
     unfold syncProcessMessage; rfl
   have hcount : valueCount m0 = 0 := initialMessage_valueCount (tableOps ns) ta
   have hb : bob = { result := .ok ns, written := [], progress := some (syncProcessMessage {} tb ns now m0 {}).2,
-                    store := { t := (syncProcessMessage {} tb ns now m0 {}).1.store, done := 0 + 1 }, calls := 0 + 1 } := by
+                    store := { t := (syncProcessMessage {} tb ns now m0 {}).1.store, done := 0 + 1 }, calls := 0 + 1,
+                    nsAtExit := some ns } := by
     show bobRun _ _ _ _ _ = _
     unfold bobRun
     rw [bobLoop_init _ _ _ _ _ _ _ _ _ _ hacc, okActor_call]
